@@ -1,13 +1,8 @@
 ------------------------------ MODULE MC_Worker ------------------------------
+(* every task on 2 references: 0..2 peaks per (reference, strand), every confidence / hasPairs of every candidate *)
 EXTENDS Worker
-CONSTANT MaxPeaks
-\* primary peaks: for every (reference, strand) the environment supplies 0..2 peaks (none when the query is longer
-\* than the reference or the reference has a single label)
-Init == /\ prim = <<>> /\ selected = <<>> /\ cands = <<>> /\ best = 0 /\ result = "-" /\ pc = "primary"
-AddPeak == /\ pc = "primary" /\ Len(prim) < MaxPeaks
-           /\ \E r \in Refs, rv \in BOOLEAN, s \in Scores : prim' = Append(prim, [ref |-> r, rev |-> rv, score |-> s])
-           /\ UNCHANGED <<selected, cands, best, result, pc>>
-PrimaryDone == pc = "primary" /\ pc' = "select" /\ UNCHANGED <<prim, selected, cands, best, result>>
+CONSTANT McPeaksCount
+Init == par = [refs |-> <<1, 2>>, pcount |-> McPeaksCount] /\ WInit
 Terminated == pc \in {"done", "aborted"} /\ UNCHANGED wvars
-Next == AddPeak \/ PrimaryDone \/ WorkerNext \/ Terminated
+Next == WorkerNext \/ Terminated
 =============================================================================
